@@ -9,27 +9,35 @@ import shutil
 
 from harness.lib import CORPUS, GEN, Finding, PropertyCheck, TranslateError, cq_bytes, cq_list, run_bool_cases
 from harness.props import fileval as fv
-from translate import astutil, tr_file, tr_getcache
+from translate import astutil, tr_expr, tr_file, tr_getcache
 
 ROOT = astutil.Path(__file__).resolve().parents[2]
 K_C04 = "ContentFile:deleted-after-caching:is_valid-raises-out-of-Scheduler.run"
 UNIVERSE = [(d, n) for d in fv.DIRS + [()] for n in fv.FNAMES]
 
-PREAMBLE = """
+PREAMBLE_TEMPLATE = """
+Definition EV : evariant := mkEV @TASK@ @SIMPLE@.
 Definition run_state v ops := fold_left (fun s o => res_state s (step Hid v s o)) ops (mkS [] []).
-Definition ext (st : state) (i : nat) : nested :=
-  NLeaf (match nth_error (s_objs st) i with Some o => LExt o | None => LPlain end).
+Definition lext (st : state) (i : nat) : leaf :=
+  match nth_error (s_objs st) i with Some o => LExt o | None => LPlain end.
+Definition ext (st : state) (i : nat) : nested := NLeaf (lext st i).
 Definition vcode (r : vres) : nat := match r with VTrue => 1 | VFalse => 2 | VRaise => 10 end%nat.
 Fixpoint hcodes v tk st ops : list nat * hstate :=
   match ops with
   | [] => ([], st)
-  | o :: r => let rs := hstep Hid v tk st o in
+  | o :: r => let rs := hstep Hid EV v tk st o in
               let c := match rs with HReplayed _ _ => 0 | HExecuted _ _ => 1 | HRaised _ => 2 | HChanged _ => 3 end%nat in
               let (cs, st') := hcodes v tk (hres_state rs) r in (c :: cs, st')
   end.
 Definition content_is (fs : fsys) (e : fpath * option bytes) : bool :=
   opt_eq bytes_eq (option_map content (fs_get fs (fst e))) (snd e).
 """
+FULL_EV = {"task_walks_kwargs": True, "simple_walks_kwargs": True}
+
+
+def preamble(ev):
+    b = lambda x: "true" if x else "false"
+    return PREAMBLE_TEMPLATE.replace("@TASK@", b(ev["task_walks_kwargs"])).replace("@SIMPLE@", b(ev["simple_walks_kwargs"]))
 
 EXEC_LOG = []
 DISTURB_LOG = []      # st_mtime of the files written by the mid-run disturbance, in order
@@ -92,9 +100,194 @@ def make_task():
             return c04_publish(spec, report)
         return c04_then(c04_disturb(dops, report), spec, report)
 
-    TASKS.update(make=c04_make, publish=c04_publish, disturb=c04_disturb, main=c04_main)
+    @task(name="c04_consume", namespace="verif_c04", version="1")
+    def c04_consume(a=None, b=None, data=None, more=None):
+        # reads every external value it is given, wherever it sits in the arguments
+        EXEC_LOG.append("consume")
+        obs = {}
+        for v in walk_values((a, b, data, more)):
+            obs.update(observe_value(v))
+        return {"obs": obs}
+
+    @task(name="c04_pick", namespace="verif_c04", version="1")
+    def c04_pick():
+        return c04_consume
+
+    @task(name="c04_recover", namespace="verif_c04", version="1")
+    def c04_recover(error):
+        return {"obs": {"error": repr(error)}}
+
+    @task(name="c04_produce", namespace="verif_c04", version="1")
+    def c04_produce(spec, layout):
+        # writes its outputs, hashes them, and returns an EXPRESSION that holds them as arguments
+        from redun import cond, catch
+        from redun.functools import seq
+        EXEC_LOG.append("produce")
+        for sp in spec:
+            for p, data in spec_files(sp):
+                from redun.file import File
+                File(fv.render_f(p)).write(data.decode())
+        vs = values_of(spec)
+        del PRODUCED[:]
+        PRODUCED.extend((type(v).__name__, v.hash) for v in vs)
+        first, rest = vs[0], vs[1:]
+        if layout == "pos":
+            return c04_consume(*vs[:2])
+        if layout == "kw":
+            return c04_consume(data=first, more=rest)
+        if layout == "kwlist":
+            return c04_consume(data=[first, {"x": rest}])
+        if layout == "mixed":
+            return c04_consume(first, data=rest) if rest else c04_consume(None, data=first)
+        if layout == "cond_pos_inner_kw":
+            return cond(True, c04_consume(data=vs), None)
+        if layout == "cond_kw":
+            return cond(cond_expr=True, then_expr=c04_consume(*vs[:2]))
+        if layout == "seq_kw":
+            return seq(exprs=[c04_consume(*vs[:2])])
+        if layout == "catch_inner_kw":
+            return catch(c04_consume(data=vs), Exception, c04_recover)
+        if layout == "getitem_pos":
+            return c04_consume(*vs[:2])["obs"]
+        if layout == "getitem_inner_kw":
+            return c04_consume(data=vs)["obs"]
+        if layout == "call_kw":
+            return c04_pick()(data=vs)
+        raise ValueError(layout)
+
+    TASKS.update(make=c04_make, publish=c04_publish, disturb=c04_disturb, main=c04_main, consume=c04_consume,
+                 produce=c04_produce)
     _task = c04_make
     return _task
+
+
+PRODUCED = []      # (class name, hash) of the values the last execution of c04_produce put into its expression
+LAYOUTS = ["pos", "kw", "kwlist", "mixed", "cond_pos_inner_kw", "cond_kw", "seq_kw", "catch_inner_kw",
+           "getitem_pos", "getitem_inner_kw", "call_kw"]
+
+
+def walk_values(x):
+    """the external values nested anywhere in x (own traversal: lists, tuples, dicts)"""
+    if isinstance(x, (list, tuple)):
+        for y in x:
+            yield from walk_values(y)
+    elif isinstance(x, dict):
+        for y in x.values():
+            yield from walk_values(y)
+    elif x is not None and hasattr(x, "filesystem"):
+        yield x
+
+
+def observe_value(v):
+    """what is on disk for one external value: {key: bytes | None | sorted [(path, bytes)]}"""
+    if hasattr(v, "pattern"):          # FileSet / Dir
+        key = ("dir:" + v.path) if hasattr(v, "path") else ("set:" + v.pattern)
+        out = []
+        for f in v:
+            with open(f.path, "rb") as fh:
+                out.append((os.path.normpath(f.path), fh.read()))
+        return {key: sorted(out)}
+    try:
+        with open(v.path, "rb") as fh:
+            return {"file:" + v.path: fh.read()}
+    except FileNotFoundError:
+        return {"file:" + v.path: None}
+
+
+def disk_snapshot(spec):
+    """the same observation, made independently of redun, for the targets of `spec`"""
+    files = fv.snapshot()
+    out = {}
+    for sp in spec:
+        t = spec_target(sp)
+        if t is None:
+            continue
+        tgt = t[1]
+        if tgt[0] == "file":
+            out["file:" + fv.render_f(tgt[1])] = files.get(tgt[1])
+        else:
+            key = ("dir:" + fv.render_d(tgt[1])) if tgt[0] == "dir" else ("set:" + fv.render_pat(tgt[1], tgt[2]))
+            out[key] = sorted((fv.render_f(p), b) for p, b in files.items() if fv.in_scope(tgt, p))
+    return out
+
+
+def normal_result(res):
+    """the observation dict out of what the run returned for any layout"""
+    while isinstance(res, (list, tuple)) and len(res) == 1:
+        res = res[0]
+    if isinstance(res, dict) and "obs" in res:
+        res = res["obs"]
+    return res
+
+
+def run_exprflow(spec, layout, ops):
+    """runs of `c04_produce(spec, layout)` -- a task whose cached result is an expression holding external
+    values -- interleaved with out-of-band changes.  Facts per run for the oracle."""
+    from redun import Scheduler
+    from redun.config import Config
+    import logging
+    make_task()
+    cls = fv.classes()
+    with fv.tempcwd("rv_c04e_"):
+        logging.getLogger("redun").setLevel(logging.CRITICAL)
+        s = Scheduler(config=Config({"backend": {"db_uri": "sqlite:///:memory:"}}))
+        s.logger.disabled = True
+        s.load()
+        facts, log = [], []
+        recorded = None
+        for o in ops:
+            if o[0] != "run":
+                apply_external(o, log)
+                continue
+            changed = None
+            if recorded is not None:
+                changed = []
+                for (cname, h), sp in zip(recorded, [x for x in spec if spec_target(x) is not None]):
+                    try:
+                        fresh = make_obj(cls, *spec_target(sp)).hash
+                    except FileNotFoundError:
+                        fresh = None
+                    if fresh != h:
+                        changed.append(cname)
+            n0 = len(EXEC_LOG)
+            err, res = None, None
+            try:
+                res = normal_result(s.run(TASKS["produce"](spec, layout)))
+            except Exception as e:  # noqa
+                err = repr(e)
+            tags = EXEC_LOG[n0:]
+            if "produce" in tags:
+                recorded = list(PRODUCED)
+            facts.append({"changed": changed, "executed": tags, "error": err, "result": res,
+                          "disk": disk_snapshot(spec)})
+        return {"spec": spec, "layout": layout, "ops": list(ops), "facts": facts}
+
+
+def judge_exprflow(run):
+    """spec: no exception; the producing task re-executes whenever an external value held by its cached
+    expression no longer has the recorded hash; what the run returns is what is on disk now"""
+    bad = []
+    for idx, f in enumerate(run["facts"]):
+        if f["error"] is not None:
+            bad.append((f"expression-result:run-raises:{f['error']}"[:200], f"run {idx} raised {f['error']}", idx))
+            continue
+        if f["changed"] and "produce" not in f["executed"]:
+            bad.append((f"expression-result:replayed-although-invalid:{run['layout']}:{f['changed'][0]}",
+                        f"run {idx}: the cached expression of the producing task was replayed although the "
+                        f"{f['changed'][0]} it holds ({run['layout']}) no longer has the recorded hash", idx))
+        if f["result"] != f["disk"]:
+            bad.append((f"expression-result:stale-result:{run['layout']}",
+                        f"run {idx} returned {str(f['result'])[:120]} but the disk holds {str(f['disk'])[:120]}", idx))
+    return bad
+
+
+def infer_ev():
+    """behavioural classification of the expression validity walk (used only when the translator failed closed)"""
+    from redun.expression import SimpleExpression, TaskExpression
+    make_task()
+    H = fake_handle_class()
+    return {"task_walks_kwargs": not TaskExpression("verif_c04.c04_consume", (), {"k": H(False)}).is_valid(),
+            "simple_walks_kwargs": not SimpleExpression("getitem", (), {"k": H(False)}).is_valid()}
 
 
 def apply_external(o, log):
@@ -501,7 +694,39 @@ def fake_handle_class():
         def is_valid(self):
             return self.ok
 
+        def __getstate__(self):
+            return {"ok": self.ok}
+
+        def __setstate__(self, state):
+            self.ok = state["ok"]
+
+        def get_hash(self, data=None):
+            return "fakehandle-%s" % self.ok
+
+    FakeHandle.__qualname__ = "FakeHandle"
+    FakeHandle.__module__ = __name__
+    globals()["FakeHandle"] = FakeHandle          # picklable: expressions serialise their arguments
     return FakeHandle
+
+
+def ast_visit(a):
+    """leaves of my value tree in the order iter_nested_value meets them (explicit stack: last child first)"""
+    if a[0] == "leaf":
+        return [a[1]]
+    out = []
+    for c in reversed(a[1]):
+        out += ast_visit(c)
+    return out
+
+
+def ast_nested(a):
+    if a[0] == "leaf":
+        return f"(NLeaf {a[1]})"
+    return "(NNode " + (cq_list([ast_nested(c) for c in a[1]]) if a[1] else "(@nil nested)") + ")"
+
+
+def cq_leaves(ls):
+    return cq_list(ls) if ls else "(@nil leaf)"
 
 
 class NestedGen:
@@ -509,27 +734,65 @@ class NestedGen:
         self.rng, self.H = rng, handle_cls
 
     def tree(self, usable, recorded, depth):
-        """returns (python value, coq term)"""
+        """returns (python value, coq term of type nested)"""
+        v, a = self.ast(usable, recorded, depth, 2)
+        return v, ast_nested(a)
+
+    def expression(self, usable, recorded, depth, edepth):
+        """a TaskExpression / SchedulerExpression / SimpleExpression holding values in args and kwargs"""
+        from redun.expression import SchedulerExpression, SimpleExpression, TaskExpression
+        r = self.rng
+        make_task()
+        kind = r.choice(["task", "task", "task", "sched", "simple", "simple_kw"])
+        nargs = r.choice([0, 1, 1, 2])
+        nkw = 0 if kind == "simple" else r.choice([0, 1, 1, 2])
+        if nargs + nkw == 0:
+            nkw = 1 if kind != "simple" else 0
+            nargs = 1 - nkw
+        akids = [self.ast(usable, recorded, depth - 1, edepth - 1) for _ in range(nargs)]
+        kkids = [self.ast(usable, recorded, depth - 1, edepth - 1) for _ in range(nkw)]
+        args = tuple(v for v, _ in akids)
+        kwargs = {f"k{j}": v for j, (v, _) in enumerate(kkids)}
+        a_ast = ("node", [a for _, a in akids])
+        k_ast = ("node", [("leaf", "LPlain")] * nkw + [a for _, a in kkids])
+        known = True
+        if kind == "task":
+            known = r.random() < 0.85
+            e = TaskExpression("verif_c04.c04_consume" if known else "verif_c04.no_such_task", args, kwargs)
+            ek = "ETask"
+        elif kind == "sched":
+            e = SchedulerExpression("redun.cond", args, kwargs)
+            ek = "ETask"
+        else:
+            e = SimpleExpression("getitem", args, kwargs)
+            ek = "ESimple"
+        term = (f"(LExpr {ek} {'true' if known else 'false'} {cq_leaves(ast_visit(k_ast))} "
+                f"{cq_leaves(ast_visit(a_ast))})")
+        return fv.unpickled(e), ("leaf", term)
+
+    def ast(self, usable, recorded, depth, edepth):
+        """returns (python value, tree) with tree = ("leaf", coq leaf term) | ("node", [children])"""
         r = self.rng
         if depth <= 0 or r.random() < 0.35:
             k = r.random()
-            if k < 0.6 and usable:
+            if k < 0.25 and edepth > 0:
+                return self.expression(usable, recorded, max(depth, 1), edepth)
+            if k < 0.7 and usable:
                 i = r.choice(usable)
-                return fv.unpickled(recorded[i]), f"(ext st {i}%nat)"
-            if k < 0.8:
-                return r.choice([0, "s", 1.5, None]), "(NLeaf LPlain)"
+                return fv.unpickled(recorded[i]), ("leaf", f"(lext st {i}%nat)")
+            if k < 0.85:
+                return r.choice([0, "s", 1.5, None]), ("leaf", "LPlain")
             b = r.random() < 0.6
-            return self.H(b), f"(NLeaf (LHandle {'true' if b else 'false'}))"
+            return self.H(b), ("leaf", f"(LHandle {'true' if b else 'false'})")
         n = r.choice([1, 2, 2, 3])
-        kids = [self.tree(usable, recorded, depth - 1) for _ in range(n)]
+        kids = [self.ast(usable, recorded, depth - 1, edepth) for _ in range(n)]
         k = r.random()
         if k < 0.45:
-            return [v for v, _ in kids], "(NNode " + cq_list([t for _, t in kids]) + ")"
+            return [v for v, _ in kids], ("node", [a for _, a in kids])
         if k < 0.7:
-            return tuple(v for v, _ in kids), "(NNode " + cq_list([t for _, t in kids]) + ")"
+            return tuple(v for v, _ in kids), ("node", [a for _, a in kids])
         keys = [f"k{j}" for j in range(n)]
-        return dict(zip(keys, [v for v, _ in kids])), \
-            "(NNode " + cq_list(["(NLeaf LPlain)"] * n + [t for _, t in kids]) + ")"
+        return dict(zip(keys, [v for v, _ in kids])), ("node", [("leaf", "LPlain")] * n + [a for _, a in kids])
 
 
 def nested_case(rng, variant, handle_cls):
@@ -580,7 +843,7 @@ def nested_case(rng, variant, handle_cls):
             code = 10
         except Exception as e:  # noqa
             code = 98
-        t = ("(let st := run_state %s %s in Nat.eqb (vcode (is_valid_nested Hid %s (s_fs st) %s)) %d%%nat)" % (
+        t = ("(let st := run_state %s %s in Nat.eqb (vcode (is_valid_nested Hid EV %s (s_fs st) %s)) %d%%nat)" % (
             fv.cq_variant(variant), cq_list([fv.cq_op(o) for o in conc]), fv.cq_variant(variant), term, code))
         return t, {"ops": repr(conc)[:300], "value": repr(val)[:200], "code": code}, code
 
@@ -591,7 +854,8 @@ class Check(PropertyCheck):
     extra_modules = ["Base.Lit"]
     theorems = ["C04_still_valid_meaning", "C04_replay_only_if_valid", "C04_replay_iff_valid_fixed",
                 "C04_lookup_never_raises_fixed", "C04_refuted_contentfile_deleted",
-                "C04_hash_raises_only_missing_contentfile", "C04_cse_checks_handles_only", "C04_handles_valid_meaning",
+                "C04_hash_raises_only_missing_contentfile", "C04_expr_kwargs_unchecked_when_args_only",
+                "C04_refuted_expr_args_only", "C04_cse_checks_handles_only", "C04_handles_valid_meaning",
                 "C04_errors_not_replayed",
                 "C04_run_never_raises_fixed", "C04_run_decides_by_validity_fixed", "C04_run_result_current_fixed",
                 "C04_executed_reflects_state", "C04_written_contents", "C04_run_refuted_as_shipped", "C04_nonvacuous"]
@@ -605,15 +869,23 @@ class Check(PropertyCheck):
         "same-execution (CSE) hits are returned by _get_cache after checking only the Handles in them "
         "(C04_cse_checks_handles_only; Scheduler._has_valid_handles pinned by shape); the "
         "histories of the property interleave changes between runs, where the backend cache (SINGLE/ULTIMATE) is used",
+        "expression leaves: kw/args are the leaves of an expression's keyword / positional arguments in the order its "
+        "is_valid walks them; which containers are walked is extracted from redun/expression.py (evariant); theorems "
+        "with premise `full ev` apply iff the tie lemma C04_tie_expr (gen_ev = full_ev) is emitted",
         "the task of the run-level machine writes its outputs and returns fresh value objects, so recorded hashes are "
         "those of the filesystem at the end of the task",
     ]
     rule = ("(a) is_valid_nested on random nested lists/tuples/dicts of recorded file values of all 9 classes, plain "
             "values and handle stand-ins after out-of-band changes; (b) histories run/remove/rewrite/truncate/"
             "recreate/touch/add-member/rmtree on the real Scheduler with one cached task returning 1-3 outputs of "
-            "every class; non-trivial = at least one external leaf / at least two runs; distinct by repr")
+            "every class (bare and nested results; also same-length rewrites with restored mtime); (c) executions with a "
+            "change between two cached jobs of one execution; (d) workflows whose producing task returns an expression "
+            "(TaskExpression, cond/seq/catch, getitem, call) holding external values by position, keyword, nested in a "
+            "keyword, mixed; (a) also contains such expressions, recorded and unpickled; "
+            "non-trivial = at least one external leaf / at least two runs; distinct by repr")
 
     variant = None
+    ev = None
 
     def translate(self):
         pins30 = json.loads((ROOT / "translate" / "pins_C30.json").read_text())
@@ -621,12 +893,14 @@ class Check(PropertyCheck):
         try:
             text, variant, _ = tr_file.translate(pins=pins30)
             ctext, chain, _ = tr_getcache.translate(pins=pins04)
+            etext, ev, _ = tr_expr.translate(pins=pins04)
         except astutil.TranslateError as e:
             raise TranslateError(str(e))
         self.variant = variant
+        self.ev = ev
         text = text.replace("C30_tie_", "C04_tie_file_")
         b = "true" if variant["content_missing_total"] else "false"
-        text += ctext
+        text += ctext + etext
         text += ("(* which theorems of Props/C04.v apply to the code as it is now *)\n"
                  f"Lemma C04_site_content_missing_total : content_missing_total gen_variant = {b}.\nProof. reflexivity. Qed.\n")
         GEN.mkdir(exist_ok=True)
@@ -639,7 +913,7 @@ class Check(PropertyCheck):
         if hasattr(self, "hruns"):
             return self.hruns
         g = HistGen(self.rng)
-        n = 45 if self.tier == "quick" else 900
+        n = 28 if self.tier == "quick" else 900
         todo = []
         corpus = CORPUS / "C04.jsonl"
         if corpus.exists():
@@ -694,14 +968,16 @@ class Check(PropertyCheck):
             shapes = [[("file", fam, p, b"ab")], [("dir", fam, (0,), ((p, b"ab"), (q, b"b")))],
                       [("set", fam, (0,), True, ((p, b"ab"), (q, b"b")))],
                       [("plain", 7), ("file", fam, p, b"ab"), ("dir", fam, (1,), ((((1,), 1), b"x"),))]]
-            for sp in shapes:
+            for si, sp in enumerate(shapes):
                 for dops in ([("write", p, b"second, longer version", None)], [("remove", p)], [("swap", p)],
                              [("touch", p, 6)]):
+                    if dops[0][0] == "touch" and si and self.tier == "quick":
+                        continue
                     todo.append((sp, dops))
         todo.append(([("file", "FImm", p, b"ab")], [("remove", p)]))
         todo.append(([("file", "FContent", p, b"ab")], []))
         g = HistGen(self.rng)
-        for _ in range(8 if self.tier == "quick" else 300):
+        for _ in range(4 if self.tier == "quick" else 300):
             sp = g.spec()
             ops = [o for o in g.history(sp) if o[0] != "run"][:self.rng.randint(1, 3)]
             todo.append((sp, ops))
@@ -715,6 +991,51 @@ class Check(PropertyCheck):
             self.count(repr((sp, dops)))
         return self.iruns
 
+    def exprflows(self):
+        """workflows whose producing task returns an EXPRESSION holding external values (positional, keyword,
+        nested in a keyword, inside scheduler / simple expressions), with changes between runs"""
+        if hasattr(self, "eruns"):
+            return self.eruns
+        p, q = ((0,), 0), ((0, 2), 1)
+        combos = []
+        for fam in ("FBase", "FContent"):
+            combos += [[("file", fam, p, b"ab")], [("dir", fam, (0,), ((p, b"ab"), (q, b"b")))],
+                       [("set", fam, (0,), True, ((p, b"ab"), (q, b"b"))), ("file", fam, ((1,), 1), b"xyz")]]
+
+        def script(sp):
+            f0 = spec_files(sp[0])[0]
+            return [("run",), ("run",), ("write", f0[0], f0[1] + b"!", None), ("run",), ("write", f0[0], b"", None),
+                    ("run",), ("remove", f0[0]), ("run",), ("remove", f0[0]), ("write", f0[0], f0[1], None), ("run",),
+                    ("run",)]
+        todo = []
+        for li, layout in enumerate(LAYOUTS):
+            pick = combos if self.tier != "quick" else [combos[(li + j * 3 + j) % len(combos)] for j in range(2)]
+            for sp in pick:
+                todo.append((sp, layout, script(sp)))
+        g = HistGen(self.rng)
+        for _ in range(6 if self.tier == "quick" else 200):
+            sp = [x for x in g.spec() if x[0] != "plain" and x[1] != "FImm"][:2]
+            if not sp:
+                continue
+            ops = []
+            for o in g.history(sp):
+                if o[0] == "swap":
+                    continue
+                if o[0] == "write" and o[3] is not None:
+                    o = ("write", o[1], o[2] + b"!!", None)
+                ops.append(o)
+            todo.append((sp, self.rng.choice(LAYOUTS), ops))
+        self.eruns = []
+        for sp, layout, ops in todo:
+            run = run_exprflow(sp, layout, ops)
+            self.eruns.append(run)
+            self.stat("expression_layout", layout)
+            for f in run["facts"]:
+                self.stat("expression_run", "raised" if f["error"] else
+                          ("producer re-executed" if "produce" in f["executed"] else "expression replayed"))
+            self.count(repr((sp, layout, ops)))
+        return self.eruns
+
     def correspond(self):
         hruns = self.histories()
         iruns = self.interleavings()
@@ -724,8 +1045,9 @@ class Check(PropertyCheck):
             # behaviour still yields concrete mismatching cases in the report
             from harness.props.c30 import infer_variant
             variant = infer_variant()
+        ev = self.ev or infer_ev()
         H = fake_handle_class()
-        n = 160 if self.tier == "quick" else 4000
+        n = 110 if self.tier == "quick" else 4000
         terms, descr = [], []
         for _ in range(n):
             t, d, code = nested_case(self.rng, variant, H)
@@ -734,19 +1056,19 @@ class Check(PropertyCheck):
             self.stat("is_valid_nested", {1: "True", 2: "False", 10: "FileNotFoundError"}.get(code, f"other:{code}"))
             self.count(d["value"] + d["ops"] if "File" in d["value"] or "Dir" in d["value"] else None)
             self.sample({"is_valid_nested": d}, 5)
-        ok, failing, diags = run_bool_cases("C04n", ["Base.Decimal", "Base.Lit", "Model.FileVal"], PREAMBLE, terms, chunk=40)
+        ok, failing, diags = run_bool_cases("C04n", ["Base.Decimal", "Base.Lit", "Model.FileVal"], preamble(ev), terms, chunk=40)
         self.ob("correspondence", f"model is_valid_nested == TypeRegistry.is_valid_nested on {len(terms)} nested values "
                 "(True / False / raises, visiting order and short-circuit included)", ok and not failing,
                 "\n".join(diags) + "".join(f"\nmismatch: {descr[i]}" for i in failing[:5]))
         terms = [history_term(variant, r) for r in hruns]
-        ok, failing, diags = run_bool_cases("C04h", ["Base.Decimal", "Base.Lit", "Model.FileVal"], PREAMBLE, terms, chunk=20)
+        ok, failing, diags = run_bool_cases("C04h", ["Base.Decimal", "Base.Lit", "Model.FileVal"], preamble(ev), terms, chunk=20)
         self.ob("correspondence", f"model run-level machine == real Scheduler.run on {len(terms)} histories "
                 "(replayed / executed / raised per run, execution count, final bytes of every file)", ok and not failing,
                 "\n".join(diags) + "".join(
                     f"\nmismatch: spec={hruns[i]['spec']!r} ops={hruns[i]['ops']!r} codes={hruns[i]['codes']} "
                     f"execs={hruns[i]['execs']}" for i in failing[:5]))
         terms = [interleaved_term(variant, r) for r in iruns]
-        ok, failing, diags = run_bool_cases("C04i", ["Base.Decimal", "Base.Lit", "Model.FileVal"], PREAMBLE, terms, chunk=20)
+        ok, failing, diags = run_bool_cases("C04i", ["Base.Decimal", "Base.Lit", "Model.FileVal"], preamble(ev), terms, chunk=20)
         self.ob("correspondence", f"model validity decision == real Scheduler on {len(terms)} executions in which an "
                 "uncached step rewrites / deletes / touches the outputs between two cached jobs of the same execution "
                 "(dependent job replayed / re-executed / raised)", ok and not failing,
@@ -813,6 +1135,22 @@ class Check(PropertyCheck):
                 self.findings.append(Finding(key, what, {"kind": "interleaved", "spec": repr(run["spec"]),
                                                          "mid_run_ops": repr(run["dops"]), "what": what,
                                                          "leaves": run["leaves"], "executed_in_run_2": run["tags2"]}))
+        for run in self.exprflows():
+            nruns += len(run["facts"])
+            for key, what, idx in judge_exprflow(run):
+                if key in keys:
+                    continue
+                keys.add(key)
+                upto = [i for i, o in enumerate(run["ops"]) if o[0] == "run"][idx]
+                self.findings.append(Finding(key, what, {"kind": "exprflow", "spec": repr(run["spec"]),
+                                                         "layout": run["layout"], "ops": repr(run["ops"][:upto + 1]),
+                                                         "run": idx, "what": what}))
+        if self.ev is not None and not (self.ev["task_walks_kwargs"] and self.ev["simple_walks_kwargs"]) and \
+                not any(k.startswith("expression-result:") for k in keys):
+            self.ob("tie-witness", "expression validity walk classified as positional-arguments-only: a workflow whose "
+                    "cached expression holds a changed external value by keyword is replayed on the real code", False,
+                    f"translator reports {self.ev} but no stale replay was observed")
+        self.stat("oracle", "expression_result_workflows", len(self.exprflows()))
         self.evaluations += nruns
         self.stat("oracle", "histories", len(hruns) + 1)
         self.stat("oracle", "executions_with_mid_run_change", len(self.interleavings()))
@@ -835,6 +1173,23 @@ class Check(PropertyCheck):
                 print("replay: still fails:", bad[0][0], "-", bad[0][1])
                 return 1
             print("replay: the property holds on this history now")
+            return 0
+        if r.get("kind") == "exprflow":
+            run = run_exprflow(eval(r["spec"]), r["layout"], eval(r["ops"]))
+            runs = iter(run["facts"])
+            for o in run["ops"]:
+                if o[0] != "run":
+                    print("  ", o)
+                    continue
+                f = next(runs)
+                print("   run ->", "raised " + f["error"] if f["error"] else
+                      ("producer re-executed" if "produce" in f["executed"] else "cached expression replayed"),
+                      "| returned", str(f["result"])[:100], "| disk", str(f["disk"])[:100])
+            bad = judge_exprflow(run)
+            if bad:
+                print("replay: still fails:", bad[0][0], "-", bad[0][1])
+                return 1
+            print("replay: the property holds on this workflow now")
             return 0
         if r.get("kind") == "interleaved":
             run = run_interleaved(eval(r["spec"]), eval(r["mid_run_ops"]))
